@@ -74,4 +74,14 @@ PROPS = {
         {"id": "C14", "cpu": 2, "quick_n": 400, "thorough_n": 40000, "quick_s": 75, "thorough_s": 1200, "timeout": 300,
          "rule": "transaction staging 1..4 branches (new/existing) via CLI; `transaction commit|discard` with a crash after every write prefix and a failure at every store write, re-run; sequences commit;commit, commit;discard; non-trivial = >=2 staged branches; distinct by plan hash"},
     ]},
+    "C09": {"level": "exploration", "profiles": [
+        {"id": "C09", "cpu": 2, "quick_n": 160, "thorough_n": 12000, "quick_s": 60, "thorough_s": 900, "timeout": 300,
+         "rule": "multi-node run (clients L, L2, remote R over simnet + reference server), 6-17 ops, server knobs, client pack size, response chunking; fault-free; non-trivial = >=1 fetch and >=1 push that transferred objects; distinct by plan hash"},
+        {"id": "C09f", "cpu": 2, "quick_n": 160, "thorough_n": 12000, "quick_s": 60, "thorough_s": 900, "timeout": 300, "seed_off": 700000,
+         "rule": "as C09 with 1-4 network faults (request lost, response lost, 500/503, stream error mid-packfile, server restart, delay); non-trivial = >=1 fault fired and >=1 packfile transferred; distinct by plan hash"},
+    ]},
+    "C10": {"level": "exploration", "profiles": [
+        {"id": "C10", "cpu": 2, "quick_n": 240, "thorough_n": 16000, "quick_s": 60, "thorough_s": 900, "timeout": 300,
+         "rule": "same multi-node runs with the ref-transition monitor at the ref-store seam and on the receive-pack requests the client sends; non-trivial = >=1 rejected, forced or diverged update; distinct by plan hash"},
+    ]},
 }
